@@ -23,7 +23,7 @@ VARIABLES peer,       \* [Conns -> [todo, reply, got, opened]]
 
 mcvars == <<vars, peer, cuts>>
 
-Peer0(c) == [todo |-> Scripts[c], reply |-> <<>>, got |-> <<>>, opened |-> FALSE]
+Peer0(c) == [todo |-> Scripts[c], reply |-> <<>>, got |-> <<>>, rx |-> <<>>, opened |-> FALSE]
 MCInit ==
   /\ InitBase
   /\ cfg = [window |-> Window, queue |-> QueueCap, pubpar |-> 10, subpar |-> 10, auth |-> TRUE, ackmode |-> ""]
@@ -64,6 +64,7 @@ EnvRecv(c) ==
   /\ LET pkt == Head(down[c]) IN
      /\ PeerRecv(c, pkt)
      /\ peer' = [peer EXCEPT ![c].reply = @ \o ReplyTo(c, pkt),
+                             ![c].rx = Append(@, pkt.t),
                              ![c].got = IF pkt.t = "PUBLISH" THEN Append(@, [m |-> pkt.msg.m, q |-> pkt.msg.q, dup |-> pkt.dup, ret |-> pkt.msg.ret]) ELSE @]
   /\ UNCHANGED cuts
 EnvCut(c) ==
@@ -181,6 +182,16 @@ NoLoss == \A k \in NeedSubs : sess[k].exists => \A x \in Owed(k) : Holds(k, x.m)
 \* liveness: a subscriber that stays connected gets everything owed to it
 StaysConnected(k) == \E c \in Conns : Connected(c) /\ cl[c].sk = k /\ c \notin Withhold
 Delivery == \A k \in NeedSubs : (<>[]StaysConnected(k)) => <>[](\A x \in Owed(k) : ReceivedBy(k, x.m))
+\* C20: nothing is sent before an accepted CONNECT; a refused client gets CONNACK 5 and nothing else; CONNACK comes first
+ConnackFirst == \A c \in Conns : peer[c].rx # <<>> => peer[c].rx[1] = "CONNACK"
+NothingBeforeConnect == \A c \in Conns : ~cl[c].seenconnect => (peer[c].rx = <<>> /\ cl[c].setups = 0)
+DeniedGetsOnlyConnack == \A c \in Conns : cl[c].authfail => (Len(peer[c].rx) <= 1 /\ cl[c].setups = 0 /\ ~cl[c].accepted /\ c \notin SeqSet(ghost.willpub))
+\* C11: a retained message is replayed at most once per matching subscription of a SUBSCRIBE, flagged retained; live copies are not flagged
+RetainedCopies(c, m) == Cardinality({i \in 1..Len(peer[c].got) : peer[c].got[i].m = m /\ peer[c].got[i].ret})
+RetainedAtMostOncePerSubscribe == \A c \in Conns : \A x \in AllMsgs :
+  RetainedCopies(c, x.m) <= Cardinality({i \in 1..Len(Scripts[c]) : Scripts[c][i].t = "SUBSCRIBE"})
+LiveCopiesNotFlagged == \A c \in Conns : \A i \in 1..Len(peer[c].got) : peer[c].got[i].ret => \E x \in AllMsgs : x.m = peer[c].got[i].m /\ x.ret
+
 \* witnesses: each of these must be VIOLATED in its configuration (the situation the property is about is reachable)
 W_NothingOwed == \A k \in NeedSubs : Owed(k) = {}
 W_WindowNeverFull == \A k \in SKeys : Len(sess[k].out) < cfg.window
@@ -191,4 +202,7 @@ W_NoRedelivery == \A c \in Conns : \A i \in 1..Len(peer[c].got) : ~peer[c].got[i
 W_FewReceived == \A c \in Conns : Len(peer[c].got) < 2
 W_NoKnownRelease == \A c \in Conns : cl[c].pc # "rel.known"
 W_NoUnknownRelease == \A c \in Conns : cl[c].pc # "rel.unknown"
+W_NoRetainedReplay == \A c \in Conns : \A i \in 1..Len(peer[c].got) : ~peer[c].got[i].ret
+W_NoRefusal == \A c \in Conns : ~cl[c].authfail
+W_NoOffender == \A c \in Conns : ~cl[c].offender
 =============================================================================
